@@ -2,7 +2,7 @@ CONSTANTS
   NMax = 10
   OMax = 10
   ValN = {1, 2, 5, 8}
-  ValO = {1, 2, 4, 6}
+  ValO = {1, 2, 3, 4, 6}
   EmitOn = TRUE
 INIT Init
 NEXT Next
@@ -11,4 +11,5 @@ INVARIANT InvDecreasing
 INVARIANT InvCountPositive
 INVARIANT InvDefaultEnough
 INVARIANT InvScalePositive
+INVARIANT InvRuleFits
 CONSTRAINT Emit
